@@ -296,8 +296,24 @@ func (fl *flattener) runFrom(f *ssa.Function, start *ssa.BasicBlock, bind map[ss
 				}
 			case *ssa.Call:
 				g := calleeOf(in)
-				if g == nil || !inAnalysed(g) || len(g.Blocks) == 0 || depth >= fl.maxDepth || hasLoop(g) || len(g.Blocks) == 1 || (fl.scope != nil && !fl.scope(g)) {
-					continue // evaluated as a term (single-block helpers are inlined by E6 itself)
+				// a single-block helper that stores through a pointer parameter ("qr.clearInnerPrefix()") has
+				// effects the term inliner of E6 does not see: it is always expanded (no new paths arise)
+				storesThroughParam := false
+				if g != nil && inAnalysed(g) && len(g.Blocks) == 1 && depth < fl.maxDepth {
+					for _, gi := range g.Blocks[0].Instrs {
+						if st, ok := gi.(*ssa.Store); ok {
+							if _, _, fa := fieldOfAddr(st.Addr); fa != nil {
+								if _, isPrm := fa.X.(*ssa.Parameter); isPrm {
+									storesThroughParam = true
+								}
+							}
+						}
+					}
+				}
+				if !storesThroughParam {
+					if g == nil || !inAnalysed(g) || len(g.Blocks) == 0 || depth >= fl.maxDepth || hasLoop(g) || len(g.Blocks) == 1 || (fl.scope != nil && !fl.scope(g)) {
+						continue // evaluated as a term (single-block helpers are inlined by E6 itself)
+					}
 				}
 				e := ev()
 				gb := map[ssa.Value]*term{}
